@@ -192,10 +192,14 @@ class HistorySpec(object):
         st = HState()
         st.stream = BufferedOutputStream()
         out = Output(st.stream, _formatter(self.ansi))
+        st.parent = out
         if self.kind == "output":
             st.recv = [out]
         else:
             st.recv = [out.section(), out.section()]  # recv[0] is the older (upper) one
+        # what the history has SET on each receiver (the accessors must keep reporting exactly this)
+        st.mq = [False for _ in st.recv]
+        st.mv = [0 for _ in st.recv]
         st.n = 0
         st.hidden = []
         st.seen = 0
@@ -208,8 +212,13 @@ class HistorySpec(object):
             if self.kind == "output":
                 out += [("verb", i, 1)]
                 out += [("w", i, m, f) for m in ("write", "write_line_raw") for f in (None, 1, 2, 4)]
+                # operations that are no settings: the formatter is replaced by one of the same kind, the stream by itself
+                out += [("fmt", i), ("stream", i)]
             else:
                 out += [("w", i, "write_line", f) for f in (None, 2, 4)] + [("w", i, "overwrite", None), ("clear", i)]
+        if self.kind != "output":
+            # settings of the PARENT output the sections were taken from (they are not the sections' settings)
+            out += [("pquiet", 0, 1), ("pquiet", 0, 0), ("pverb", 0, 4)]
         return out
 
     def key(self, st):
@@ -222,7 +231,7 @@ class HistorySpec(object):
                 return type(o).__name__
             return None
         import re as _re
-        c = canon([vars(r) for r in st.recv], leaf)
+        c = canon([vars(r) for r in st.recv] + [st.parent.is_quiet(), st.parent.verbosity, st.mq, st.mv], leaf)
         return _re.sub(r"([mh])\d+", r"\1", repr(c))
 
     def apply(self, st, op):
@@ -233,8 +242,18 @@ class HistorySpec(object):
         try:
             if op[0] == "quiet":
                 r.set_quiet(bool(op[2]))
+                st.mq[op[1]] = bool(op[2])
             elif op[0] == "verb":
                 r.set_verbosity(op[2])
+                st.mv[op[1]] = op[2]
+            elif op[0] == "pquiet":
+                st.parent.set_quiet(bool(op[2]))
+            elif op[0] == "pverb":
+                st.parent.set_verbosity(op[2])
+            elif op[0] == "fmt":
+                r.set_formatter(_formatter(self.ansi))
+            elif op[0] == "stream":
+                r.set_stream(st.stream)
             elif op[0] == "clear":
                 r.clear()
             else:
@@ -250,6 +269,17 @@ class HistorySpec(object):
                     getattr(r, op[2])(text, flags=op[3])
         except Exception as e:
             return [report.viol("crash:" + report.exc_site(e), "%r raised %r" % (op, e), None)]
+        if op[0] in ("pquiet", "pverb"):
+            # whether a section follows its parent's settings is not demanded either way: what the section REPORTS from now
+            # on is what gates its writes
+            st.mq = [bool(x.is_quiet()) for x in st.recv]
+            st.mv = [x.verbosity for x in st.recv]
+        for i, x in enumerate(st.recv):
+            if (bool(x.is_quiet()), x.verbosity) != (st.mq[i], st.mv[i]):
+                return [report.viol("history:setting-changed:%s.%s" % (self.kind, op[0] if op[0] != "w" else op[2]),
+                                    "after %r receiver %d reports quiet=%r verbosity=%r, the history set quiet=%r verbosity=%r"
+                                    % (op, i, x.is_quiet(), x.verbosity, st.mq[i], st.mv[i]), None, [st.mq[i], st.mv[i]],
+                                    [bool(x.is_quiet()), x.verbosity])]
         delta = st.stream.fetch()[len(before):]
         if text is not None:
             if admitted and text not in delta:
